@@ -219,9 +219,7 @@ BACKING = {
     "fn parse_from": "seam: proved by Kani k3_parse_fixed / k3_parse_bytes / k3_parse_temporal (complete)",
     "fn try_from": "dependency (mysql_common ColumnType::try_from): checked by Kani k3_parse_* over all 256 codes",
     "fn sqlstate": "seam: proved by Kani k5_codes_* (sqlstate of every defined kind; complete over all u16 codes, sharded)",
-    "fn as_u16": "seam: proved by Kani k5_codes_* (complete over all u16)",
-    "fn ER_ACCESS_DENIED_ERROR": "seam: proved by Kani k5_emitted (code 1045 / 28000)",
-    "struct ErrorKind": "seam: src/errorcodes.rs enum, opaque here; its tables are proved by Kani group k5_errors",
+    "fn axiom_access_denied_state": "seam: proved by Kani k5_emitted (ER_ACCESS_DENIED_ERROR.sqlstate() == 28000)",
     "fn write_lenenc_int": "dependency (mysql_common): checked by Kani k6_write_lenenc_int (complete, all u64)",
     "fn write_lenenc_str": "dependency (mysql_common): checked by Kani k6_write_lenenc_str (complete in content, length classes)",
     "fn write_u16": "dependency (byteorder): checked by Kani k6_byteorder_le (complete)",
@@ -251,6 +249,7 @@ BACKING = {
     "fn contains": "ASSUMED: bitflags contains = mask test",
     "fn set": "ASSUMED: bitflags set",
     "fn kind": "ASSUMED: io::Error::kind returns the kind given to io::Error::new",
+    "fn vfmt_msg": "R5: the value of a dropped format!(..) is an arbitrary String (no contract depends on message text)",
     "fn vpanic_any": "obligation device: panic!/unreachable! in expression position become `requires false` (not an assumption)",
     "fn chain": "ASSUMED: std Read::chain builds Chain { first, second } (read order checked (bounded) by Kani k7_prepended_read)",
     "fn get_mut": "ASSUMED: std Chain::get_mut returns mutable references to (first, second)",
